@@ -781,6 +781,36 @@ fn exec_dec(prop: &str, spec: &DecSpec, source: &mut dyn OpSource) -> RunOut {
             if run.had_errors != !m.malformed.is_empty() {
                 viols.push(viol("C09", "had-errors-vs-manual", format!("had_errors (OR over calls) = {}, manual procedure met {} malformed sequences", run.had_errors, m.malformed.len())));
             }
+            // One more caller on the same stream: the crate's *own* pump
+            // (`Encoding::decode*`, a grow-and-retry loop over decode_to_string).
+            // Its schedule is its own, not the simulator's; it is compared with
+            // the same manual procedure. (It is never used as an oracle.)
+            let own = crate::sink::guard(|| match spec.bom {
+                Bom::Off => {
+                    let (t, h) = spec.enc.decode_without_bom_handling(&spec.stream);
+                    (t.into_owned(), h)
+                }
+                Bom::Remove => {
+                    let (t, h) = spec.enc.decode_with_bom_removal(&spec.stream);
+                    (t.into_owned(), h)
+                }
+                Bom::Sniff => {
+                    let (t, _e, h) = spec.enc.decode(&spec.stream);
+                    (t.into_owned(), h)
+                }
+            });
+            match own {
+                Ok((t, h)) => {
+                    let tc: Vec<char> = t.chars().collect();
+                    if let Some(d) = cmp_text(&tc, &m.text) {
+                        viols.push(viol("C09", "own-pump-vs-manual-text", format!("Encoding::decode* vs manual U+FFFD procedure: {}", d)));
+                    }
+                    if h != !m.malformed.is_empty() {
+                        viols.push(viol("C09", "own-pump-had-errors-vs-manual", format!("Encoding::decode* reports had_errors = {}, manual procedure met {} malformed sequences", h, m.malformed.len())));
+                    }
+                }
+                Err(_) => viols.push(viol("C09", "own-pump-panicked", format!("Encoding::decode* panicked: {}", crate::sink::take_panic()))),
+            }
         }
     }
 
@@ -875,6 +905,24 @@ fn exec_enc(prop: &str, spec: &EncSpec, source: &mut dyn OpSource) -> RunOut {
                 if !spec.repl && run.unmappables != o.unmappables {
                     viols.push(viol("C04", "utf8-vs-utf16-source-unmappables", format!("{:?} vs {:?}", run.unmappables, o.unmappables)));
                 }
+            }
+        }
+        if prop == "C09" && m.ok && spec.repl && !spec.form16 {
+            // the crate's own pump (`Encoding::encode`) on the same text
+            let s8 = text_to_utf8(&spec.text).0;
+            match crate::sink::guard(|| {
+                let (b, _e, h) = spec.enc.encode(&s8);
+                (b.into_owned(), h)
+            }) {
+                Ok((b, h)) => {
+                    if b != m.out {
+                        viols.push(viol("C09", "own-pump-vs-manual-ncr-bytes", format!("Encoding::encode {} vs manual procedure {}", hex(&b), hex(&m.out))));
+                    }
+                    if h != !m.unmappables.is_empty() {
+                        viols.push(viol("C09", "own-pump-had-unmappables-vs-manual", format!("Encoding::encode reports {}, manual procedure met {} unmappable characters", h, m.unmappables.len())));
+                    }
+                }
+                Err(_) => viols.push(viol("C09", "own-pump-panicked", format!("Encoding::encode panicked: {}", crate::sink::take_panic()))),
             }
         }
         if prop == "C09" && m.ok && spec.repl {
